@@ -7,6 +7,7 @@
 (* unspecified, but never the object accounting: objs = sum of capacities, bad = 0, always.              *)
 EXTENDS FixedVector, TraceIO
 
+TCaps == 0..400          \* recorded histories also use capacities and lists around 127 / 255 / 300
 VARIABLE l
 
 Ev == TraceLog[l]
